@@ -172,6 +172,25 @@ theorem safediv_nan_iff :
         ((i.cx.isInf = true ∧ i.cy.isInf = true) ∨
          (i.cx.isZero = true ∧ (i.cy = .nzero ∨ i.cy = .neg)))) := by decide
 
+/-- clamp-then-multiply is SAFE: on finite operands with a non-negative divisor — the zero divisor
+    included, whatever dtype held it before the conversion to float — the stabilised safediv never
+    returns NaN; a zero numerator gives exactly 0, and `x / 0 = x · finfo.max` keeps the sign class
+    of `x` (it may overflow to ±∞ for large `x`, never NaN). -/
+theorem safediv_finite_never_nan :
+    ∀ (v : Variant) (i : In), stab v = true → validIn i = true → i.cx.isFinite = true →
+      (i.cy = .pzero ∨ i.cy = .pos ∨ i.cy = .one) →
+      ∃ r, safedivV v i = some r ∧ r.hasNan = false ∧
+        (i.cx.isZero = true → ∀ k ∈ r.cs, k.isZero = true) := by decide
+
+/-- the composition a "simplification" to plain `np.true_divide(x, y)` performs is NOT safe:
+    `0 / 0 = NaN` and `x / 0 = ±∞` for every finite non-zero `x` (never `x · finfo.max`). -/
+theorem true_divide_not_safe_witness :
+    (divNpA ⟨[Cls.pzero], .x⟩ ⟨[Cls.pzero], .y⟩).hasNan = true ∧
+    (divNpA ⟨[Cls.pos], .x⟩ ⟨[Cls.pzero], .y⟩).cs = [Cls.pinf] ∧
+    (divNpA ⟨[Cls.neg], .x⟩ ⟨[Cls.pzero], .y⟩).cs = [Cls.ninf] ∧
+    (∃ r, safedivV .arr ⟨.pzero, .pzero, .eq⟩ = some r ∧ r.cs = [Cls.pzero]) ∧
+    (∃ r, safedivV .arr ⟨.pos, .pzero, .gt⟩ = some r ∧ Cls.pos ∈ r.cs ∧ r.hasNan = false) := by decide
+
 /-- KF-safesub-inf witness: (array, Number) divides plainly, `0/0 = NaN`; two Python numbers raise. -/
 theorem safediv_unstabilised_witness :
     (∃ r, safedivV .arrNum ⟨.pzero, .pzero, .eq⟩ = some r ∧ r.hasNan = true) ∧
